@@ -186,7 +186,8 @@ def _units_part(case, res):
                 res["evals"] += 1
                 res["nontrivial"] += 1 if sc > 0 else 0
                 diff = float(np.max(np.abs(got[inner] - base[inner])))
-                tol = 4 * EPS * sc if exact else 64 * EPS * max(kap, kap2, 1.0) * sc
+                # decimal factors: two compared solutions, three sequential solves each
+                tol = 4 * EPS * sc if exact else 64 * EPS * (max(kap, 1.0) + max(kap2, 1.0)) * sc * 3
                 if not diff <= tol:
                     k = "C17:units:%s:%s:%s:%s" % (spec["cls"], "+".join(ts), scheme, "pow2" if exact else "decimal")
                     if k in seen:
